@@ -42,7 +42,7 @@ def roundtrip(rec, B, sub, thing, item, desc, nt, layer_N=None):
     for order in ("bf", "fb"):
         obj = CC.clone_input(B, item)
         first, second = (thing.forward, thing.backward) if order == "bf" else (thing.backward, thing.forward)
-        name = sub if sub.startswith(("gate", "layer", "named")) else "%s.%s" % (order, sub)
+        name = sub if sub.startswith(("gate", "layer", "named", "stale")) else "%s.%s" % (order, sub)
         ok, _ = rec.attempt(name, desc, lambda: second(first(obj)))
         if ok:
             got = CC.read(B, item[0], obj)
@@ -120,6 +120,20 @@ def run_progs(shard, rec, B):
             if ok:
                 L2.forward_map = L2.backward_map = None   # use the copied gates themselves
                 roundtrip(rec, B, "layer.copy_after_use", L2, ins[0], {"N": N, "layer": [PR.describe(s) for s in lay]}, nt)
+        # compile, then extend WITHOUT recompiling (the documented stale case): whatever forward does now, backward must undo it
+        if len(prog) >= 2 and B.name == "np":
+            h = len(prog) // 2
+            for how in ("compose", "take"):
+                c1, _ = CC.build(B, "CliffordCircuit", prog[:h], N)
+                c1.compile(N)
+                if how == "compose":
+                    c2, _ = CC.build(B, "CliffordCircuit", prog[h:], N)
+                    ok, _ = rec.attempt("stale.compose", desc, lambda: c1.compose(c2))
+                else:
+                    ok, _ = rec.attempt("stale.take", desc, lambda: [c1.take(PR.make_gate(B, s, N)) for s in prog[h:]])
+                if ok:
+                    for item in ins[:3]:
+                        roundtrip(rec, B, "stale.%s" % how, c1, item, dict(desc, how=how), nt)
         # circuits in all configurations
         for cls in classes:
             for variant in CC.VARIANTS:
